@@ -21,6 +21,7 @@ import (
 
 var collidingWindows [][2]string // 5-byte lower-case strings with equal FastHash
 var collidingHosts [][2]string   // host names with equal FastHash
+var collidingSeqTexts [][2]string // rule texts "/xyz^" (sequential table: shortcut shorter than 5) with equal FastHash
 
 func findCollisions() {
 	if collidingWindows != nil {
@@ -40,6 +41,21 @@ func findCollisions() {
 			collidingWindows = append(collidingWindows, [2]string{o, s})
 		}
 		seen[h] = s
+	}
+	// whole rule texts that collide: enumerate "/xyz^" over [a-z0-9] (deterministic order)
+	seenT := map[uint32]string{}
+	al := "abcdefghijklmnopqrstuvwxyz0123456789"
+	for i := 0; i < len(al) && len(collidingSeqTexts) < 6; i++ {
+		for j := 0; j < len(al) && len(collidingSeqTexts) < 6; j++ {
+			for k := 0; k < len(al) && len(collidingSeqTexts) < 6; k++ {
+				s := "/" + string(al[i]) + string(al[j]) + string(al[k]) + "^"
+				h := filterutil.FastHash(s)
+				if o, ok := seenT[h]; ok && o != s {
+					collidingSeqTexts = append(collidingSeqTexts, [2]string{o, s})
+				}
+				seenT[h] = s
+			}
+		}
 	}
 	seenH := map[uint32]string{}
 	words := []string{"ads", "cdn", "img", "log", "app", "api", "static", "media"}
@@ -159,6 +175,13 @@ func engineRule(g *Gen) string {
 		return "||" + Pick(g, []string{"adserver", "adserver.example", "xadserverx", "serveradserver"}) + Pick(g, []string{"^", ".org^", "/a", "*b"}) + Pick(g, []string{"", "$script", "$important"})
 	case 6:
 		return "@@" + engineRuleBase(g)
+	case 7:
+		// sequential table: two different rule texts with the same hash
+		if len(collidingSeqTexts) > 0 {
+			p := collidingSeqTexts[g.Intn(min(3, len(collidingSeqTexts)))]
+			return p[g.Intn(2)]
+		}
+		return engineRuleBase(g)
 	default:
 		return engineRuleBase(g)
 	}
@@ -183,6 +206,11 @@ func engineURLReq(g *Gen, lines []string) Req {
 	if r.Kind == "url" && g.Chance(1, 6) {
 		p := Pick(g, collidingWindows)
 		r.URL = "http://example.org/" + Pick(g, []string{"", "x", "ab"}) + p[g.Intn(2)] + Pick(g, []string{"", "z", "/q"})
+	}
+	if r.Kind == "url" && len(collidingSeqTexts) > 0 && g.Chance(1, 8) {
+		p := collidingSeqTexts[g.Intn(min(3, len(collidingSeqTexts)))]
+		t := p[g.Intn(2)]
+		r.URL = "https://example.org" + t[:4] + Pick(g, []string{"/banner.js", "", "?x=1"})
 	}
 	if r.Kind == "url" && g.Chance(1, 10) {
 		// the only occurrence of a window is at the very end of the URL
